@@ -40,6 +40,8 @@ MCInit ==
   /\ st \in {f \in [Streams -> StreamClasses \cup {Busy}] : f["s2"] = Busy /\ f["s1"] \in StreamClasses}
   /\ cursors \in {f \in [Streams -> {-1, 0}] : f["s2"] = 0}
   /\ members \in {{"owner"}, {"owner"} \cup Callers}
+  /\ sessions = {}
+  /\ enforcer \in BOOLEAN /\ (~enforcer => policy = {})     \* no enforcer: nothing is loaded
   /\ obs = [a |-> "Open", res |-> "Ok"]
   /\ last = [a |-> "Open"] /\ phase = 0
 
@@ -53,6 +55,7 @@ MCCall(call) ==
 \* DeepReload = FALSE: the edit / reload / call-again tail only from the empty and the full policy
 MCEdit ==
   /\ phase = 1 /\ phase' = 2
+  /\ enforcer
   /\ DeepReload \/ policy = {} \/ policy = Entries
   /\ DoEditPolicy(Toggle(policyFile, EntryOf(last.call)))
   /\ last' = [a |-> "EditPolicy", call |-> last.call]
